@@ -45,7 +45,7 @@ class Block:
 
 
 METHODS = ["MS", "SS", "DC", "Spline", "MS_euler"]
-BASES = ["chain", "chain3", "param", "param_bspline", "twostage", "discrete"]
+BASES = ["chain", "chain3", "param", "param_bspline", "twostage", "discrete", "autonomous", "controlonly", "dae"]
 
 # fault -> (bases it applies to, positions, can be injected after a first transcription)
 FAULTS = {
@@ -54,7 +54,9 @@ FAULTS = {
     "missing_der_quad": (["chain", "param", "twostage"], [0], True),     # a user quadrature state without its set_der
     "missing_value_global": (["param", "param_bspline", "twostage"], [0, 1], False),
     "missing_value_interval": (["param", "param_bspline"], [0], False),
-    "missing_method": (["chain", "twostage"], [0, 1], False),
+    "missing_method": (["chain", "twostage", "autonomous", "controlonly"], [0, 1], False),
+    "set_value_algebraic": (["dae"], [0], True),
+    "set_value_quadstate": (["chain", "param"], [0], True),
     "missing_solver": (["chain", "param", "twostage"], [0], False),
     "objective_signal": (["chain", "twostage"], [0, 1], True),
     "objective_nonscalar": (["chain", "twostage"], [0, 1], True),
@@ -86,6 +88,7 @@ FAULTS = {
     "ode_t0": (["chain"], [0], False),
 }
 ONLY_METHODS = {
+    "set_value_algebraic": ["DC"],
     "alg_explicit": ["MS", "SS", "MS_euler"],
     "spline_time_varying": ["Spline"], "spline_nonlinear": ["Spline"], "spline_weight": ["Spline"], "spline_dae": ["Spline"],
     "missing_next": ["MS", "SS"],
@@ -110,6 +113,20 @@ def fill_stage(st, base, fault, pos, late, with_pc=True):
     declaration-time fault of this stage (late faults are injected by the caller)."""
     import casadi as ca
     S = {}
+    if base in ("autonomous", "controlonly"):
+        # a stage with states but no control (or a control but no state) whose signals only occur in the dynamics and in
+        # path constraints: nothing but the method check stands between a forgotten method() and a solved NLP
+        import casadi as ca
+        w = st.variable()
+        if base == "autonomous":
+            x = st.state(); st.set_der(x, -0.4 * x); S["x"] = [x, x]; S["u"] = None
+            st.subject_to(x <= 5 + w)
+        else:
+            u = st.control(); S["x"] = [u, u]; S["u"] = u
+            st.subject_to(u <= 5 + w)
+        st.add_objective(w * w)
+        S["vg"] = w
+        return S
     nst = 3 if base == "chain3" else 2
     S["x"] = [st.state() for _ in range(nst)]
     S["u"] = st.control()
@@ -144,6 +161,8 @@ def fill_stage(st, base, fault, pos, late, with_pc=True):
             st.set_next(S["x"][i], S["x"][i] + st.DT * rhs)
         else:
             st.set_der(S["x"][i], rhs)
+    if base == "dae":
+        z = st.algebraic(); st.add_alg(z - 0.5 * S["x"][0]); S["z"] = z
     if F("alg_explicit") or F("spline_dae"):
         z = st.algebraic()
         st.add_alg(z - S["x"][0])
@@ -172,6 +191,11 @@ def late_fault(ocp, st, S, fault, pos, sol=None):
     x0 = S["x"][0]
     if fault == "missing_der_quad":
         st.state(quad=True)
+    elif fault == "set_value_algebraic":
+        st.set_value(S["z"], 1.0)
+    elif fault == "set_value_quadstate":
+        q = st.state(quad=True); st.set_der(q, x0 * x0)
+        st.set_value(q, 1.0)
     elif fault == "objective_signal":
         st.add_objective(x0 * x0)
     elif fault == "objective_nonscalar":
@@ -299,6 +323,10 @@ def applicable(base, method, fault):
         return False
     if method == "Spline" and not have_networkx():
         return False
+    if base == "dae" and method != "DC":
+        return False
+    if base in ("autonomous", "controlonly") and method == "Spline":
+        return False
     if method == "Spline" and base in ("param", "param_bspline"):
         return False     # a global variable inside a path constraint raises under SplineMethod: every case would be vacuous
     return True
@@ -313,6 +341,8 @@ def cases(tier):
                     continue
                 for pos in positions:
                     if fault == "missing_der" and pos == 2 and base != "chain3":
+                        continue
+                    if fault == "missing_method" and pos == 1 and base != "twostage":
                         continue
                     if fault in ("set_initial_param",) and pos == 2 and base != "param_bspline":
                         continue
